@@ -14,7 +14,7 @@ use serde_json::json;
 
 /// Does a reference type (func/service) in `t` mention a record that contains itself? Decoding such a
 /// reference at its own type is affected by the documented wire-side normalisation (see DESIGN §4).
-fn mentions_mu_in_reference(env: &REnv, t: &RType) -> bool {
+pub fn mentions_mu_in_reference(env: &REnv, t: &RType) -> bool {
     // flatten through the reference encoder's view: any µ-record in the environment reachable from a func/service
     fn reach(env: &REnv, t: &RType, seen: &mut Vec<bool>, inside_ref: bool, mu: &[bool]) -> bool {
         match t {
